@@ -293,6 +293,7 @@ class H2ServerPeer(_H2Base):
         self.send_errors: list[str] = []
         self.max_open_seen = 0
         self.settings_sent = 0
+        self.finished_answers: set = set()  # stream ids whose scripted answer was sent completely
 
     # the limit the h2 library currently enforces for inbound streams (changes when the proxy ACKs our SETTINGS)
     def enforced_limit(self):
@@ -384,6 +385,8 @@ class H2ServerPeer(_H2Base):
                 self.flush()
                 return None
             self.flush()
+            if k + 1 >= len(acts):
+                self.finished_answers.add(sid)
             self._queue(sid, acts, k + 1)
             return None
 
